@@ -2,8 +2,9 @@
 (***************************************************************************)
 (* Model-checking root for FrontDoor.tla (C35, C34).  The bounds are read  *)
 (* from the one-line JSON file named by the environment variable FD_CONSTS:*)
-(*   {"peers":2,"sizes":[0,1,4097],"eps":["sql","readyz"],"mutant":"none", *)
-(*    "emit":"none","depth":14}                                            *)
+(*   {"peers":2,"sizes":[0,1,4097],"eps":["sql","readyz"],                 *)
+(*    "fmts":["arrow","json","csv","bad"],"mutant":"none","emit":"none",   *)
+(*    "depth":14}                                                          *)
 (* `./check C35|C34` writes it; by hand:                                   *)
 (*   FD_CONSTS=/verif/work/C35/consts_mc.json tlc -config FrontDoor_quick.cfg MCFrontDoor.tla *)
 (***************************************************************************)
@@ -13,6 +14,7 @@ EnvC == ndJsonDeserialize(IOEnv.FD_CONSTS)[1]
 EnvPeers == 1..EnvC.peers
 EnvSizes == SeqRange(EnvC.sizes)
 EnvEps == SeqRange(EnvC.eps)
+EnvFmts == SeqRange(EnvC.fmts)
 EnvMutant == EnvC.mutant
 EnvEmit == EnvC.emit
 EnvDepth == EnvC.depth
